@@ -25,7 +25,7 @@ type FuncReport struct {
 func (w *World) newExec(fn *ssa.Function, spec *FuncSpec, beh *Behavior) *Exec {
 	x := &Exec{W: w, fn: fn, spec: spec, beh: beh, ghost: map[string]Value{}, assumed: map[string]bool{},
 		ordinal: map[ssa.Instruction]int{}, globals: map[string]*Obj{}, gvals: map[*Obj]Value{}, errIDs: map[string]*Term{},
-		maxPath: 4000, strs: map[string]*Term{}, bufSrc: map[*Obj]*Obj{}, aliasOf: map[*Obj]*Obj{}, lazy: map[*Obj]Value{}}
+		maxPath: 4000, strs: map[string]*Term{}, bufSrc: map[*Obj]*Obj{}, aliasOf: map[*Obj]*Obj{}, lazy: map[*Obj]Value{}, conns: map[*Term]*Obj{}}
 	x.bv = spec.Mode == "bv"
 	x.arr = spec.Options["repr"] == "arr"
 	x.theory = spec.Theory
@@ -198,6 +198,23 @@ func (w *World) verifyBehavior(rep *FuncReport, fn *ssa.Function, spec *FuncSpec
 			return
 		}
 		st.Assume(t)
+	}
+	// a precondition of the form `param == literal` specialises the run (keeps products with it linear)
+	for _, f := range st.Facts {
+		if f.Op == "=" && len(f.Args) == 2 {
+			c, l := f.Args[0], f.Args[1]
+			if l.Op == "const" {
+				c, l = l, c
+			}
+			if c.Op == "const" && l.IsLit() {
+				for _, p := range fn.Params {
+					if fr.Regs[p] == Value(c) {
+						fr.Regs[p] = l
+						params[p.Name()] = l
+					}
+				}
+			}
+		}
 	}
 	st.Alloc = IntLit(0)
 	pre := st.Clone()
